@@ -98,10 +98,13 @@ def case_blur(ctx, rng, wd, unequal, big=False):
     rank = int(rng.choice([0, 0, 1, 2]))
     if big:
         d, T, N = 3, 1, 300
-    cell = gc.make_cell(rng, d, "ortho", lmin=3.0, lmax=9.0)
+    ckind = "ortho" if (big or rng.random() < 0.7) else str(rng.choice(["tri+", "tri-", "tri"]))
+    cell = gc.make_cell(rng, d, ckind, lmin=3.0, lmax=9.0)
     # the box (lengths and origin) may change from frame to frame (NPT runs, deformation): every frame has its own grid
     vary = T > 1 and rng.random() < 0.5
-    cells = [cell] + [gc.make_cell(rng, d, "ortho", lmin=3.0, lmax=9.0) if vary else cell for _ in range(T - 1)]
+    cells = [cell] + [gc.make_cell(rng, d, ckind, lmin=3.0, lmax=9.0) if vary else cell for _ in range(T - 1)]
+    if ckind != "ortho":
+        ctx.count("triclinic_blur_cases")
     snaps = gc.snapshots_from([gc.snapshot_from(cells[t], rng.random((N, d)), np.ones(N, dtype=int), 100 * t) for t in range(T)])
     if unequal:
         ng = np.array([int(rng.choice([1, 2, 3, 4, 5, 7])) for _ in range(d)])
@@ -118,6 +121,8 @@ def case_blur(ctx, rng, wd, unequal, big=False):
     cut = float(rng.uniform(0.8, 0.49 * L.min() / 0.5 * 0.5))
     cut = min(cut, 0.49 * L.min())
     ppp = gc.random_mask(rng, d)
+    if ckind != "ortho":
+        cut = min(cut, 0.95 * min(geom.agreement_radius(c["H"], ppp) for c in cells))      # R2: one image only inside the cut-off
     pin = ppp if rng.random() < 0.7 or d == 3 else np.array([ppp[0], ppp[1], 1])       # a longer mask is cut to the dimension
     A = rng.normal(size=(T, N) + (d,) * rank)
     out = os.path.join(wd, "gb") if rng.random() < 0.2 else ""
@@ -148,8 +153,8 @@ def case_blur(ctx, rng, wd, unequal, big=False):
     gp, gv = res
     npts = int(np.prod(ng))
     expgs = []
-    for c in cells:
-        lo, Lc = c["origin"], np.diag(c["H"])
+    for c, s_ in zip(cells, snaps.snapshots):
+        lo, Lc = s_.boxbounds[:, 0], s_.boxbounds[:, 1] - s_.boxbounds[:, 0]      # "spanning the box bounds" (the bounding box of a tilted cell)
         axes = [np.linspace(lo[k], lo[k] + Lc[k], ng[k]) for k in range(d)]
         expgs.append(np.array(list(itertools.product(*axes))))              # x slowest: row-major
     expg = expgs[0]
@@ -167,7 +172,7 @@ def case_blur(ctx, rng, wd, unequal, big=False):
     for t in range(T):
         pos = snaps.snapshots[t].positions
         dR = (expgs[t][:, None, :] - pos[None, :, :]).reshape(-1, d)
-        _v, dist, _ = geom.min_image_vectors(dR, cells[t]["H"], ppp)
+        _v, dist, _ = geom.min_image_vectors(dR, cells[t]["H"], ppp, nimg=1 if ckind == "ortho" else 2)
         dist = dist.reshape(npts, N)
         if np.any(np.abs(dist - cut) < 1e-9):
             ctx.skip("grid_values")
@@ -195,6 +200,10 @@ def case_time(ctx, rng, exact):
     w = int(rng.integers(1, T))
     if exact:
         period = interval * w
+    elif rng.random() < 0.25 and w >= 2:
+        # just below an exact multiple, by less than half a time step: the window is w-1 frames, whatever the rounding of period/dt says
+        period = interval * w - Fraction(dt_s) * Fraction(int(rng.integers(1, 49)), 100)
+        ctx.count("period_just_below_a_multiple")
     else:
         period = interval * w + interval * Fraction(int(rng.integers(1, 99)), 100)
     period_s = format(float(period), ".10g")
